@@ -341,7 +341,8 @@ def build(r, layout, fname, opener, eol):
             for i, k in enumerate(keys):
                 kk = dup if i == bad_at else k
                 if mid:
-                    pre, post = (T % (mb + "id: \0" + " tail")).split("\0")
+                    # the key's text may also occur earlier on the line, outside the capture
+                    pre, post = (T % (mb + (kk + " " if r.random() < 0.5 else "") + "id: \0" + " tail")).split("\0")
                     lines.append((cind, pre, kk, post, i == bad_at))
                 else:
                     lines.append((cind, "", whole(kk), r.choice(["", "  "]), i == bad_at))
